@@ -1123,7 +1123,9 @@ func compileGenericForStmt(context *funcContext, stmt *ast.GenericForStmt) { // 
 	context.RegisterLocalVar("(for state)")
 	context.RegisterLocalVar("(for control)")
 
-	compileRegAssignment(context, stmt.Names, stmt.Exprs, context.RegTop()-3, 3, sline(stmt))
+	// the explist initialises the three hidden variables (generator, state, control): missing
+	// values must be nil whatever the number of loop variables
+	compileRegAssignment(context, []string{"(for generator)", "(for state)", "(for control)"}, stmt.Exprs, context.RegTop()-3, 3, sline(stmt))
 
 	code.AddASbx(OP_JMP, 0, fllabel, sline(stmt))
 
